@@ -8,9 +8,13 @@ from __future__ import annotations
 
 import io
 
-from .. import doccheck, gen, ooxml, sem
+import random
+import re
 
-PROFILES = {"default": {}, "tables": {"table": 0.5, "nested_table": 0.3, "empty_para": 0.15, "header": 0.5, "footer": 0.5},
+from .. import doccheck, editgen, engine_oracles, engine_run, gen, ooxml, sem
+
+PROFILES = {"default": {}, "breaks": {"br": 0.45, "tab": 0.2, "fmt": 0.8, "ins": 0.05, "del": 0.05, "subst": 0.0, "comment": 0.1,
+                                      "hyperlink": 0.0, "vmerge": 0.0, "point_comment": 0.0, "runs": (2, 5)}, "tables": {"table": 0.5, "nested_table": 0.3, "empty_para": 0.15, "header": 0.5, "footer": 0.5},
             "markup": {"fmt": 0.7, "comment": 0.3, "reply": 0.6, "ins": 0.3, "del": 0.3, "subst": 0.2, "br": 0.2, "empty_run": 0.15}}
 
 
@@ -48,9 +52,69 @@ def work(case):
                         break
                 pos = s.end
             out["spans_ok"] = ok and pos == len(out["map_raw"])
+        out["indexed"] = indexed_edit_case(case, data, out["raw"])
     except Exception as e:
         out["err"] = f"{type(e).__name__}: {e}"
     return out
+
+
+WORD = re.compile(r"[A-Za-z0-9]{3,}")
+
+
+def indexed_edit_case(case, data, raw):
+    """An edit addressed by a character range of the extracted text (chosen by content: from the start of one unique
+    word to the end of another in the same paragraph, possibly across formatting markers, tabs and line breaks of
+    one run sequence) must change exactly those characters."""
+    rng = random.Random((case["seed"] << 16) ^ case["index"] ^ 0x5bd1)
+    pvs = [editgen.ParaView(si, pi, p) for pi, (si, p) in enumerate(sem.all_paragraphs(case["doc"]))]
+    rng.shuffle(pvs)
+    for pv in pvs[:6]:
+        txt = "".join(c["c"] for c in pv.chars)
+        words = [(m.start(), m.end(), m.group()) for m in WORD.finditer(txt)]
+        words = [w for w in words if editgen.count_occ(raw, w[2]) == 1]
+        if len(words) < 2:
+            continue
+        i = rng.randrange(len(words) - 1)
+        j = rng.randrange(i + 1, min(len(words), i + 4))
+        a, b = words[i][0], words[j][1]
+        seg = pv.chars[a:b]
+        if any(c["state"] != "plain" for c in seg) or len({c["comments"] for c in seg}) > 1:
+            continue
+        ta, tb = raw.find(words[i][2]), raw.find(words[j][2]) + len(words[j][2])
+        if not (0 <= ta < tb) or "\n\n" in raw[ta:tb] or " | " in raw[ta:tb]:
+            continue
+        new = rng.choice(["", "", "SWAPPED", "x y"])
+        edit = {"target": raw[ta:tb], "new": new, "comment": None, "index": ta}
+        r = engine_run.run_edits(data, [edit])
+        exp = "".join(c["c"] for c in pv.chars[:a] if c["state"] != "del") + new + "".join(c["c"] for c in pv.chars[b:] if c["state"] != "del")
+        return {"edit": {"target": edit["target"], "new": new, "index": ta}, "pi": pv.pi, "expected": exp,
+                "res": {k: v for k, v in r.items() if k != "out_bytes"},
+                "crosses_break": any(c["c"] == "\n" for c in seg), "crosses_runs": len({c["run"] for c in seg}) > 1}
+    return None
+
+
+def oracle_indexed(res):
+    ix = res.get("indexed")
+    if not ix:
+        return []
+    r = ix["res"]
+    if r["err"]:
+        return [f"indexed edit raised {r['err']}"]
+    fails = []
+    if (r["applied"], r["skipped"]) != (1, 0):
+        fails.append(f"an edit addressed by a range of real characters was not applied: {(r['applied'], r['skipped'])}")
+        return fails
+    got = editgen.accepted_paragraph_texts(r["out_doc"])
+    before = editgen.accepted_paragraph_texts(res["case"]["doc"])
+    exp = list(before)
+    exp[ix["pi"]] = ix["expected"]
+    if got != exp:
+        k = next((j for j, (x, y) in enumerate(zip(got, exp)) if x != y), None)
+        fails.append(f"an edit addressed by the range [{ix['edit']['index']}, +{len(ix['edit']['target'])}) of the extracted text "
+                     f"({ix['edit']['target']!r} -> {ix['edit']['new']!r}) did not change exactly those characters: paragraph {k} is "
+                     f"{got[k] if k is not None and k < len(got) else None!r}, expected {exp[k] if k is not None else None!r}")
+    fails.extend(engine_oracles.oracle_reversible(res["case"]["doc"], r["out_doc"])[:1])
+    return fails
 
 
 def oracle(res):
@@ -65,6 +129,7 @@ def oracle(res):
                          f"reader …{a[max(0,k-40):k+40]!r}… engine …{b[max(0,k-40):k+40]!r}…")
     if res.get("spans_ok") is False:
         fails.append("the engine's spans do not partition its text / a real span's text is not in its run")
+    fails.extend(oracle_indexed(res))
     return fails
 
 
@@ -94,7 +159,8 @@ def compare(res, out):
 def run(tier, seed, driver_ok):
     return doccheck.run_doc_check(
         "C03", tier, seed, driver_ok, n_quick=400, n_thorough=6000,
-        profiles=[("default", PROFILES["default"], 2), ("tables", PROFILES["tables"], 1), ("markup", PROFILES["markup"], 1)],
+        profiles=[("default", PROFILES["default"], 2), ("tables", PROFILES["tables"], 1), ("markup", PROFILES["markup"], 1),
+                  ("breaks", PROFILES["breaks"], 2)],
         work=work, oracle=oracle, driver_line=driver_line, compare=compare,
         rule="seeded generated documents (three profiles: default, table/empty-block heavy, markup/comment-thread heavy), "
              "both views; non-trivial = distinct document shape",
@@ -103,7 +169,7 @@ def run(tier, seed, driver_ok):
 
 
 def search(res, tier, seed):
-    r = run("thorough" if tier == "quick" else tier, seed + 1, False)
+    r = run("search" if tier == "quick" else "thorough", seed + 1, False)
     return r["oracle_failures"][:3]
 
 
@@ -111,6 +177,6 @@ def replay(payload):
     case = payload.get("case") or {}
     if "doc" not in case:
         return {"fails": False, "note": "no input in replay (proof/correspondence break)"}
-    r = work({"seed": -1, "index": -1, "stream": "replay", "doc": case["doc"], "features": []})
+    r = work({"seed": case.get("seed", 1), "index": case.get("index", 1), "stream": "replay", "doc": case["doc"], "features": []})
     f = oracle(r)
     return {"fails": bool(f), "what": f}
